@@ -170,7 +170,19 @@ var staticCases = []staticCase{
 	{fn: func(**stMid) {}, reject: true, name: "double-pointer-param"},
 	{fn: func() **stLast { return nil }, reject: true, name: "double-pointer-result"},
 	{fn: func(stMid, stLast) {}, reject: true, name: "two-marker-structs"},
+	// a DEFINED pointer type to a marker struct is a pointer-to-struct form
+	{fn: func(stMidPtr) {}, in: []xLabel{xl("a", types[0], ""), xl("", types[1], "")}, name: "defined-pointer-type-param"},
+	{fn: func() (stMidPtr, error) { return nil, nil }, out: []xLabel{xl("a", types[0], ""), xl("", types[1], "")}, name: "defined-pointer-type-result"},
+	{fn: func(stMidPtr, T0) {}, reject: true, name: "defined-pointer-type+positional"},
+	{fn: func(*stMidPtr) {}, reject: true, name: "pointer-to-defined-pointer-type"},
+	// variadic functions: the final parameter is a value of slice type
+	{fn: func(a T0, rest ...T1) {}, in: []xLabel{xl("", types[0], ""), xl("", reflect.TypeOf([]T1{}), "")}, name: "variadic"},
+	{fn: func(rest ...T0) T1 { return T1{} }, in: []xLabel{xl("", reflect.TypeOf([]T0{}), "")}, out: []xLabel{xl("", types[1], "")}, name: "variadic-only"},
+	{fn: func(stMid, ...T0) {}, reject: true, name: "marker+variadic"},
 }
+
+// stMidPtr is a defined pointer type to a marker struct.
+type stMidPtr *stMid
 
 func valuesToX(vs []am.Value) []xLabel {
 	out := make([]xLabel, len(vs))
@@ -194,7 +206,7 @@ func init() {
 		Cases: func(t string) int { return tierN(t, 10000, 300000) },
 		Rule: "round trip: the Go function type is built from a label list (positional / struct / pointer-struct; names via field name or tag in random casing, ',typeOnly' with or without a dummy name, 'subtype=', with or without tags; " +
 			"results with trailing error, error in the middle, two trailing errors, concrete error types in final position), NewFunc must accept it and Input()/Output().Values() must equal the list in order (names lower-cased, final error stripped), " +
-			"Named/Typed/TypedSubtype must find each value, struct and pointer-struct forms must agree; 19 static shapes cover the marker in middle/last position, nested embedding (an ordinary value), the marker embedded through a type alias, unexported fields and every rejected shape " +
+			"Named/Typed/TypedSubtype must find each value, struct and pointer-struct forms must agree; 26 static shapes cover the marker in middle/last position, nested embedding (an ordinary value), the marker embedded through a type alias, unexported fields and every rejected shape " +
 			"(marker struct mixed with other parameters/results at any position, **struct, two marker structs) plus non-function values. non-trivial = signature with >= 2 values or a rejected shape; distinct = distinct signature strings",
 		Assumptions: []string{"only the documented tag options are generated; dynamically built structs carry the marker first (reflect.StructOf restriction), static types cover other positions"},
 		Run:         runC14,
@@ -1104,16 +1116,34 @@ func runC16(c *CaseCtx) (res CaseResult) {
 	}
 	// permutation invariance with distinct keys: one occurrence per key, all at Call
 	var single []am.Arg
+	var grouped []interface{}
 	wantID := map[int]int64{}
 	for i, l := range ls {
 		id++
 		v := mk(typeIndex(l.T), id).Interface()
 		wantID[i] = id
+		if l.Name == "" && l.Sub == "" && c.Idx%4 == 2 {
+			// all type-only values without subtype travel in ONE
+			// Typed(a, b, ...) option (values of different types)
+			grouped = append(grouped, v)
+			continue
+		}
 		if l.Name != "" {
 			single = append(single, am.NamedSubtype(recase(r, l.Name), v, l.Sub))
+			if l.Sub != "" && c.Idx%3 == 1 {
+				// one more value under the SAME name with ANOTHER subtype,
+				// spelled in upper case: a key of its own that no parameter
+				// asks for
+				single = append(single, am.NamedSubtype(strings.ToUpper(l.Name), mk(typeIndex(l.T), -77).Interface(), l.Sub+"q"))
+				res.obs("same_name_other_subtype_options", 1)
+			}
 		} else {
 			single = append(single, am.TypedSubtype(v, l.Sub))
 		}
+	}
+	if len(grouped) > 0 {
+		single = append(single, am.Typed(grouped...))
+		res.obs("several_values_in_one_Typed_option", 1)
 	}
 	f, err := am.NewFunc(fn.Interface())
 	if err == nil {
@@ -1408,7 +1438,7 @@ func runC17Histories(c *CaseCtx, r *rand.Rand) (res CaseResult) {
 			res.violate("C06", "panic/result-"+crashKey(fmt.Sprint(p)), fmt.Sprintf("panicked: %v", p), map[string]interface{}{"case": res.Key})
 		}
 	}()
-	if (c.Idx/12)%6 == 4 {
+	if (c.Idx/12)%8 == 4 {
 		// a function built over a set made with NewValueSet returns ONE
 		// struct; its interface-typed field holds what the callback stored --
 		// a typed nil pointer is a non-nil interface value, a zero struct
@@ -1458,7 +1488,111 @@ func runC17Histories(c *CaseCtx, r *rand.Rand) (res CaseResult) {
 		res.Sample = det
 		return res
 	}
-	if (c.Idx/12)%6 == 5 {
+	if (c.Idx/12)%8 == 6 {
+		// functions of different result shapes made with ONE FuncOnce()
+		// option value: each Result is that function's own
+		res.Key = "functions-sharing-a-FuncOnce-option-value"
+		det := map[string]interface{}{"case": res.Key}
+		boom := errors.New("second function fails")
+		fns := []interface{}{
+			func() (T0, T1) { return T0{ID: 61}, T1{ID: 62} },
+			func() (T2, error) { return T2{ID: 63}, boom },
+			func() T3 { return T3{ID: 64} },
+		}
+		var fl []*am.Func
+		if r.Intn(2) == 0 {
+			fl, _ = am.NewFuncList(fns, am.FuncOnce())
+		} else {
+			once := am.FuncOnce()
+			for _, fn := range fns {
+				if f, err := am.NewFunc(fn, once); err == nil {
+					fl = append(fl, f)
+				}
+			}
+		}
+		if len(fl) != 3 {
+			res.Skip = "newfunc"
+			return res
+		}
+		order := r.Perm(3)
+		for _, i := range append(order, order...) {
+			rr := fl[i].Call()
+			res.Evals++
+			switch i {
+			case 0:
+				a, _ := idOfIface(safeOut(rr, 0))
+				b, _ := idOfIface(safeOut(rr, 1))
+				if rr.Err() != nil || rr.Len() != 2 || a != 61 || b != 62 {
+					res.violate("C17", "out", fmt.Sprintf("func() (T0, T1) sharing a FuncOnce option value: Len()=%d Err()=%v outputs #%d #%d, want 2, nil, #61 #62", rr.Len(), rr.Err(), a, b), det)
+				}
+			case 1:
+				if rr.Err() != boom {
+					res.violate("C17", "err-identity", fmt.Sprintf("func() (T2, error) sharing a FuncOnce option value: Err() = %v, the function returned %v", rr.Err(), boom), det)
+				}
+			case 2:
+				a, _ := idOfIface(safeOut(rr, 0))
+				if rr.Err() != nil || rr.Len() != 1 || a != 64 {
+					res.violate("C17", "out", fmt.Sprintf("func() T3 sharing a FuncOnce option value: Len()=%d Err()=%v output #%d, want 1, nil, #64", rr.Len(), rr.Err(), a), det)
+				}
+			}
+		}
+		res.obs("functions_sharing_an_option_value", 1)
+		res.Sample = det
+		return res
+	}
+	if (c.Idx/12)%8 == 7 {
+		// a function built with ONE value set as its input AND output (pass
+		// through / adjust in place): the results are what the callback left
+		// in the set
+		res.Key = "built-function-with-one-set-as-input-and-output"
+		det := map[string]interface{}{"case": res.Key}
+		set, err := am.NewValueSet([]am.Value{{Name: "n", Type: types[0]}, {Type: types[1]}})
+		if err != nil {
+			res.Skip = "newvalueset"
+			return res
+		}
+		adjust := r.Intn(2) == 0
+		built, err := am.BuildFunc(set, set, func(in, out *am.ValueSet) error {
+			if adjust {
+				id, _ := idOf(in.Named("n").Value)
+				out.Named("n").Value = reflect.ValueOf(T0{ID: id + 1000})
+			}
+			return nil
+		})
+		if err != nil {
+			res.violate("C15", "build-rejected", "BuildFunc rejected one set used as input and output: "+err.Error(), det)
+			return res
+		}
+		for k := int64(1); k <= 3; k++ {
+			rr := built.Call(am.Named("n", T0{ID: k}), am.Typed(T1{ID: k + 10}))
+			res.Evals++
+			if rr.Err() != nil || rr.Len() != 1 {
+				res.violate("C17", "len", fmt.Sprintf("Len() = %d, Err() = %v for a built function returning one struct", rr.Len(), rr.Err()), det)
+				break
+			}
+			sv := reflect.ValueOf(rr.Out(0))
+			wantN := k
+			if adjust {
+				wantN += 1000
+			}
+			for i := 0; sv.Kind() == reflect.Struct && i < sv.NumField(); i++ {
+				switch sv.Field(i).Type() {
+				case types[0]:
+					if id, _ := idOf(sv.Field(i)); id != wantN {
+						res.violate("C17", "out", fmt.Sprintf("call %d: field n of Out(0) carries #%d, the callback left #%d in the set", k, id, wantN), det)
+					}
+				case types[1]:
+					if id, _ := idOf(sv.Field(i)); id != k+10 {
+						res.violate("C17", "out", fmt.Sprintf("call %d: the T1 field of Out(0) carries #%d, the callback left #%d in the set", k, id, k+10), det)
+					}
+				}
+			}
+		}
+		res.obs("built_functions_over_one_set", 1)
+		res.Sample = det
+		return res
+	}
+	if (c.Idx/12)%8 == 5 {
 		// two functions built over separately made value sets of ONE shape: A
 		// is called first and sets every output; B's callback then sets
 		// nothing (or calls A as a helper after setting its own outputs) --
@@ -1667,4 +1801,12 @@ func runC17Histories(c *CaseCtx, r *rand.Rand) (res CaseResult) {
 	res.obs("run_once_target_then_unsatisfiable_call", 1)
 	res.Sample = det
 	return res
+}
+
+// safeOut returns Out(i) or nil when the result has fewer values.
+func safeOut(r am.Result, i int) interface{} {
+	if i >= r.Len() {
+		return nil
+	}
+	return r.Out(i)
 }
